@@ -6,6 +6,7 @@ pub mod c01;
 pub mod c02;
 pub mod c03;
 pub mod c04;
+pub mod c05;
 pub mod c06;
 pub mod c07;
 pub mod c08;
@@ -22,7 +23,7 @@ pub mod c19;
 pub mod c20;
 
 pub fn all() -> Vec<&'static PropDef> {
-    vec![&c01::PROP, &c02::PROP, &c03::PROP, &c04::PROP, &c06::PROP, &c07::PROP, &c08::PROP, &c09::PROP, &c10::PROP, &c11::PROP, &c12::PROP, &c13::PROP, &c14::PROP, &c15::PROP, &c16::PROP, &c18::PROP, &c19::PROP, &c20::PROP]
+    vec![&c01::PROP, &c02::PROP, &c03::PROP, &c04::PROP, &c05::PROP, &c06::PROP, &c07::PROP, &c08::PROP, &c09::PROP, &c10::PROP, &c11::PROP, &c12::PROP, &c13::PROP, &c14::PROP, &c15::PROP, &c16::PROP, &c18::PROP, &c19::PROP, &c20::PROP]
 }
 
 pub fn find(id: &str) -> Option<&'static PropDef> {
